@@ -6,7 +6,7 @@ import ast, itertools
 from .core import ( rule, Result, AnalysisError, dotted, call_name, is_call_to, names_in, attrs_in, walk_no_nested,
                     norm_text, dotted_in, stmt_of, pmatch, pfind, txt )
 from .core import Matcher
-from .fold import fold, try_fold, NoFold, run_block
+from .fold import fold, try_fold, NoFold, run_block, Record, Raises
 from .cfg import CFG, INF
 from . import spec
 
@@ -537,6 +537,34 @@ def w_attr( ctx ):
     # Attribute's own methods: only __setitem__ and the value setter store
     src = ctx.src( DEVICE )
     cd = src.get( 'Attribute' )
+    # __setitem__ stores what it is given, decided by value: the statements from the _validate_key test on, run on a record standing for the
+    # Attribute.  "Only when it changes something" is not the same: == does not tell -0.0 from 0.0 ( nor True from 1 ), the write is
+    # acknowledged and the old octets are read back
+    si = src.get( 'Attribute.__setitem__' )
+    KEY, VAL = [ a.arg for a in si.args.args ][1:3]
+    start = [ k for k, st in enumerate( si.body ) if isinstance( st, ast.If ) and '_validate_key' in txt( st.test ) ]
+    if not start:
+        raise AnalysisError( 'Attribute.__setitem__: the test of _validate_key( key ) not found' )
+    cells = (( False, slice( 0, 1 ), [ -0.0 ], [ 0.0, 5.0 ], '[-0.0, 5.0]' ), ( False, slice( 1, 2 ), [ True ], [ 0, 1 ], '[0, True]' ),
+              ( False, 1, 9, [ 0, 5 ], '[0, 9]' ), ( False, slice( 0, 2 ), [ 3, 4 ], [ 0, 5 ], '[3, 4]' ),
+              ( True, slice( 0, 1 ), [ -0.0 ], 0.0, '-0.0' ), ( True, 0, 7, 0, '7' ))
+    wrong = []
+    for scalar, key, value, held, want in cells:
+        inst = Record( scalar=scalar, value=( list( held ) if isinstance( held, list ) else held ))
+        env = { 'self': inst, KEY: key, VAL: value, 'slice': slice, 'int': int, 'next': next, 'iter': iter,
+                'self._validate_key': lambda k: slice if isinstance( k, slice ) else int }
+        try:
+            run_block( si.body[start[0]:], env, ignore_calls=( 'log', ))
+        except NoFold as exc:
+            raise AnalysisError( 'Attribute.__setitem__: not a decision fragment: %s' % exc )
+        if repr( inst.value ) != want:
+            wrong.append(( scalar, key, value, held, repr( inst.value ), want ))
+    if wrong:
+        scalar, key, value, held, got, want = wrong[0]
+        res.bad( src, si, 'Attribute.__setitem__( %r, %r ) on a %s holding %r leaves %s, not %s' % ( key, value, 'scalar' if scalar else 'vector', held, got, want ),
+                 'an acknowledged write stores the values it carried, also where they compare equal to what is held ( -0.0 over 0.0 ): later reads return the old octets' )
+    else:
+        res.ok( src, si, 'Attribute.__setitem__ stores exactly the value( s ) it is given ( %d cells: scalar / vector x index / slice, -0.0 over 0.0 )' % len( cells ))
     for m in cd.body:
         if isinstance( m, ast.FunctionDef ) and m.name not in ( '__init__', '__setitem__', 'value' ):
             stores = [ s for s in walk_no_nested( m ) if isinstance( s, ( ast.Assign, ast.AugAssign ))
@@ -2307,6 +2335,30 @@ def e_contain( ctx ):
     # the same address uses - a store of the end-of-session flag there silences every later datagram of that peer ( the receive loop
     # asserts `not stats.get( 'eof' )` ) and ends a live TCP session from the same host and port number
     ud = src.get( 'enip_srv_udp' )
+    # ... and one UDP thread serves EVERY peer: whatever goes wrong with one datagram - framing, processing, encoding or sending the reply -
+    # is absorbed per datagram.  The calls that do that work sit in the BODY of a try whose catch-all handler does not re-raise ( the else
+    # clause, the handlers and the finally of a try are not protected by it )
+    work = [ c for c in ast.walk( ud ) if isinstance( c, ast.Call ) and (( call_name( c ) or '' ) in ( 'enip_process', 'parser.enip_encode' )
+                                                                         or ( isinstance( c.func, ast.Attribute ) and c.func.attr in ( 'sendto', 'send' ))
+                                                                         or ( isinstance( c.func, ast.Attribute ) and c.func.attr == 'run' and any( k.arg == 'source' for k in c.keywords ))) ]
+    if len( work ) < 3:
+        raise AnalysisError( 'enip_srv_udp: the calls that parse, process and answer a datagram not found ( %d )' % len( work ))
+    def absorbed( c ):
+        node = c
+        for a in src.ancestors( c ):
+            if isinstance( a, ast.Try ) and any( node is b for b in a.body ):
+                for h in a.handlers:
+                    catch_all = h.type is None or dotted( h.type ) in ( 'Exception', 'BaseException' )
+                    if catch_all and not any( isinstance( r, ast.Raise ) for r in ast.walk( h )):
+                        return True
+            node = a
+        return False
+    loose = [ c for c in work if not absorbed( c ) ]
+    if loose:
+        res.bad( src, loose[0], 'enip_srv_udp: `%s` is outside the body of the try that absorbs a datagram\'s failure' % norm_text( loose[0] )[:90],
+                 'an exception while processing or answering ONE correctly framed datagram ends the only UDP service thread: server_main tidies the dead thread away and starts no other - UDP is gone for every peer', func='enip_srv_udp' )
+    else:
+        res.ok( src, ud, 'enip_srv_udp: parsing, processing, encoding and sending ( %d calls ) are absorbed per datagram by a catch-all handler that does not re-raise' % len( work ))
     eofs = [ a_ for a_ in ast.walk( ud ) if isinstance( a_, ( ast.Assign, ast.AugAssign )) for t_ in ( a_.targets if isinstance( a_, ast.Assign ) else [ a_.target ] )
              if ( isinstance( t_, ast.Subscript ) and try_fold( t_.slice, default=None ) == 'eof' ) or ( isinstance( t_, ast.Attribute ) and t_.attr == 'eof' ) ]
     if eofs:
@@ -2386,6 +2438,31 @@ def w_print( ctx ):
                 res.bad( src, raw[0], '%s.%s computes with a raw slice bound ( %s )' % ( c.name, f.name, norm_text( raw[0] )), 'for the bound-less slice of Set Attribute Single ( att[:] = values ) the bound is None: the arithmetic raises after the values were stored - the request is answered 0x08, the tag is overwritten' )
             elif f.name in ( '__setitem__', '__getitem__' ) or any( isinstance( o, ast.Attribute ) and o.attr in ( 'start', 'stop' ) for o in ast.walk( f )):
                 res.ok( src, f, '%s.%s: no arithmetic on raw slice bounds' % ( c.name, f.name ))
+            # what is printed is formatted for EVERY value a tag can hold - numbers, booleans, texts - and every key: the argument of each print
+            # is evaluated on 5 values x 3 keys; a conversion that raises for one of them ( '%g' % 'text' ) fails the read or the write it decorates
+            if f.name in ( '__setitem__', '__getitem__' ):
+                VALUE = ( [ a.arg for a in f.args.args ] + [ 'value' ] )[2] if f.name == '__setitem__' else 'value'
+                KEY = f.args.args[1].arg
+                for pc in [ x for x in ast.walk( f ) if isinstance( x, ast.Call ) and call_name( x ) == 'print' and x.args ]:
+                    failed = None
+                    for key in ( 3, slice( 1, 4 ), slice( None, None )):
+                        for value in ( 'abc', [ 'ab', 'c' ], 3, [ 1.5, 2 ], True ):
+                            if isinstance( key, slice ) != isinstance( value, list ):
+                                continue
+                            env = { 'self.name': 'T', 'len': lambda x: 8 if x == 'SELF' else len( x ), 'self': 'SELF', KEY: key, VALUE: value, 'isinstance': isinstance, 'slice': slice,
+                                    KEY + '.indices': ( key.indices if isinstance( key, slice ) else None ), KEY + '.start': getattr( key, 'start', None ), KEY + '.stop': getattr( key, 'stop', None ) }
+                            res.cells += 1
+                            try:
+                                fold( pc.args[0], env )
+                            except Raises as exc:
+                                failed = failed or ( key, value, str( exc ))
+                            except NoFold as exc:
+                                raise AnalysisError( '%s.%s: the printed text is outside the modelled subset: %s' % ( c.name, f.name, exc ))
+                    if failed:
+                        res.bad( src, pc, '%s.%s: formatting the line for key %r, value %r raises %s' % (( c.name, f.name ) + failed ),
+                                 'the wrapper prints around the real access: a conversion that is not total over the values a tag can hold makes every read ( or write ) of such a tag fail while --print is on - a tag that was written is unreadable' )
+                    else:
+                        res.ok( src, pc, '%s.%s: the printed line is formatted for numbers, booleans and texts, indexes and slices' % ( c.name, f.name ))
     return res
 
 
@@ -3399,6 +3476,35 @@ def t_symbol( ctx ):
         res.ok( src, re_, 'resolve_element: the path\'s element segment, default element 0' )
     else:
         res.bad( src, re_, 'resolve_element', 'the element index is the path\'s element segment, defaulting to 0' )
+    # the name a configured tag is registered under is the name given: logix.setup() only transcodes it ( UTF-8 text -> ISO-8859-1 octets ->
+    # text ), decided by value on names holding ISO-8859-1 symbols.  Anything that rewrites characters ( a compatibility normalisation turns
+    # 'm³' into 'm3', 'º' into 'o' ) registers the tag under a name no request spells: every read and write of it is answered 0x05
+    lsrc = ctx.src( LOGIX )
+    su = lsrc.get( 'setup' )
+    tl = [ l for l in ast.walk( su ) if isinstance( l, ast.For ) and 'tags' in txt( l.iter ) and isinstance( l.target, ast.Tuple ) and len( l.target.elts ) == 2 ]
+    if len( tl ) != 1:
+        raise AnalysisError( 'logix.setup: the loop over the configured tags not found' )
+    KEY, VAL = [ e.id for e in tl[0].target.elts ]
+    wrong = []
+    names = ( 'SCADA', u'Vol_m\u00b3', u'Temp_\u00baC', u'Z\u00fcrich', u'\u00b5A', u'a\u00bc', 'a.b[3]' )
+    for name in names:
+        seen = []
+        env = { KEY: name, VAL: 'VAL', 'sys.version_info': ( 3, 12 ), 'setup_tag': lambda *a: seen.append( a ), 'unicode': str, 'str': str,
+                'unicodedata.normalize': __import__( 'unicodedata' ).normalize }	# the standard library's table, not the repository's code
+        try:
+            run_block( tl[0].body, env, ignore_calls=( 'log', ))
+        except NoFold as exc:
+            if "codec can't encode" not in str( exc ):
+                raise AnalysisError( 'logix.setup: the body of the tag loop is not a decision fragment: %s' % exc )
+            seen.append(( 'refused: not ISO-8859-1 any more', ))
+        res.cells += 1
+        if len( seen ) != 1 or seen[0][:1] != ( name, ):
+            wrong.append(( name, seen ))
+    if wrong:
+        res.bad( lsrc, tl[0], 'logix.setup registers the tag %r as %r' % ( wrong[0][0], [ a[0] for a in wrong[0][1] ] ),
+                 'the tag is created under another name than the one requests spell: every Read / Write Tag of it is refused with 0x05, two tags may collapse into one ( %d of %d names differ )' % ( len( wrong ), len( names )))
+    else:
+        res.ok( lsrc, tl[0], 'logix.setup registers every configured tag under the name given ( %d names with ISO-8859-1 symbols )' % len( names ))
     return res
 
 
